@@ -238,6 +238,26 @@ theorem call_panic {sy : Bool} {fx : Fixes} {cap : Nat} {f : Plan} {s : St} {c :
     simp only [call] at hh
     cases hh
 
+/-- a successful commit of a writer that has its workers publishes both registers and every queued document -/
+theorem commit_ok_publishes {sy : Bool} {fx : Fixes} {cap : Nat} {f : Plan} {s : St} {w : Writer}
+    (hw : s.writer = some w) (hwk : w.workers = true) (hok : (call sy fx cap f s .commit).2 = .ok) :
+    content (call sy fx cap f s .commit).1.metaSegs = content w.committed ++ content w.uncommitted ++ w.queue := by
+  cases hwe : w.workerErr with
+  | true => simp [call, hw, hwk, hwe] at hok
+  | false =>
+    simp only [call, hw, hwk, hwe, Bool.not_true, Bool.false_eq_true, ↓reduceIte] at hok ⊢
+    split at hok
+    · cases hok
+    · rename_i hcond
+      obtain ⟨_, _, _, _, hm⟩ := updaterCommit_ok hok
+      rw [if_neg hcond, hm]
+      unfold flushW
+      split
+      · rename_i hq
+        have : w.queue = [] := by simpa using hq
+        simp [this]
+      · simp [List.append_assoc]
+
 theorem Fit_run (sy : Bool) (fx : Fixes) (cap : Nat) (F : Nat → Plan) (i : Nat) (s : St) (cs : List Call)
     (h : Fit fx s) : Fit fx (run sy fx cap F i s cs).1 :=
   run_inv (Fit fx) sy fx cap (fun f s c => Fit_call sy fx cap f s c) F i s cs h
